@@ -123,5 +123,11 @@ def isTrivial : G → Bool
   | .triv _ => true
   | _ => false
 
+/-- `shrink_slots` (`/repo/src/egraph/rebuild.rs`): the part of a class symmetry that acts on the retained slots -/
+def restrict (cap : List Nat) (p : Perm) : Perm := p.filter fun e => cap.contains e.1
+
+/-- the generators `shrink_slots` keeps: those that map retained slots to retained slots and dropped ones to dropped ones -/
+def preservesCap (cap : List Nat) (p : Perm) : Bool := p.all fun e => cap.contains e.1 == cap.contains e.2
+
 end Grp
 end SV
